@@ -905,7 +905,7 @@ pub fn cmd_check(args: &[String]) -> ExitCode {
         "wall_s": wall,
         "violations": violations.len(),
     });
-    let ev_dir = Path::new(VERIF_DIR).join("evidence");
+    let ev_dir = std::env::var("NV_EVIDENCE_DIR").map(PathBuf::from).unwrap_or_else(|_| Path::new(VERIF_DIR).join("evidence"));
     let _ = std::fs::create_dir_all(&ev_dir);
     let _ = std::fs::write(ev_dir.join(format!("{id}.json")), serde_json::to_string_pretty(&evidence).unwrap());
 
